@@ -249,6 +249,10 @@ def run(ck, prog, ctx):
     ck.extra["encoder reads under a foreign field's test"] = n_ei
     # release version
     mw = prog.body(codec.ONT + "metadata_as_bytes")
+    # ---- the record types' identity as the collections see it (the encoder may sort / de-duplicate through it; the decoder stores by it)
+    ck.rule("SELFCMP", "every comparison inside the PartialEq / Ord / PartialOrd impls of the annotation record types and their ids takes one operand from `self` and one from `other`")
+    from engines import check_comparison_impls
+    check_comparison_impls(ck, "SELFCMP", prog, r"^src/annotations/", floor=4)
     hv = prog.one(r"^ontology::builder::Builder::<T>::hpo_version_from_bytes$")
     if mw is not None and hv is not None:
         comps = set()
